@@ -1431,7 +1431,7 @@ def gen_frozen(rng, out, n):
 
 def cases(rng, tier):
     out = []
-    k = {'quick': 4, 'thorough': 40, 'search': 4}[tier]
+    k = {'quick': 4, 'thorough': 100, 'search': 4}[tier]
     gen_ecat(rng, out, 4 * k, 25, exhaustive=True)
     gen_generic(rng, out, 30 * k, 14)
     gen_afni(rng, out, 8 * k, 14)
